@@ -705,7 +705,7 @@ def r05_15(ctx) -> None:
             ok = isinstance(r, type(want)) and r.is_subclass_of(want)
             ctx.check(ok, "R05.15", f, node, f"{f.short} :: {norm(node)[:60]}", f"an algorithm gate refuses a name with `{norm(e)}`, not with UnsupportedAlgorithmError",
                       "raise UnsupportedAlgorithmError(...)", construct=f"gate raises {norm(e)} in {f.short}")
-    ctx.count("R05.15", n, 6, "raise statements reachable from the algorithm gates")
+    ctx.count("R05.15", n, 4, "raise statements reachable from the algorithm gates")
 
 
 def run(ctx) -> None:
